@@ -58,7 +58,11 @@ partial def shapeOf (vg : VG) (obs : Option G) : Shape :=
     polyShape rings (if k == .empty then .polygon else k) k
   | .multiPoint ps => .multiPoint (ps.map fun s => .point s.pts.isEmpty s.bad.isNone)
   | .multiLine ls => .multiLine (ls.map fun s => .line s.pts.isEmpty (cleanOf s).length)
-  | .multiPolygon polys => .multiPolygon (polys.map fun rings => polyShape rings .polygon .polygon)
+  | .multiPolygon polys =>
+    -- whether the holes of an element erase it completely is decided by the overlay engine: taken from the observation
+    -- (an empty result), the area clause checks independently that nothing should be there
+    let erased := match obs with | some g => gEmpty g | none => false
+    .multiPolygon (polys.map fun rings => polyShape rings .polygon (if erased then .empty else .polygon))
       (match obs with | some g => tyOfG g | none => .multiPolygon)
   | .collection gs =>
     let kids : List (Option G) := match obs with
